@@ -11,7 +11,7 @@ open Spec Sim
 theorem program_div6_syntactic (ast : Block) (r : RBlock) (bc : Bytecode) (hc : compileProgram ast = .ok (r, bc)) (hin : S6Top ast)
     (hdiv : ∀ F, Spec.evalB F r {} = .fuel) (n : Nat) :
     (∃ s', runSteps bc.code n (VM.start {} bc) = .budget s') ∨
-    (∃ n0 s', ∀ k, runSteps bc.code (n0 + k) (VM.start {} bc) = .error .index s') := by
+    HitsLimit bc := by
   unfold compileProgram at hc
   cases hr : resolveProgram ast with
   | error e => simp [hr] at hc
@@ -48,20 +48,17 @@ theorem specText_budget {cc : CharClass} {src : Text} {ast : Block} {r : RBlock}
     nor a fault) — or stops at the machine's stack/frame limit, exactly as the forward theorem allows -/
 theorem eval_text6_div (cc : CharClass) (src : Text) (ast : Block) (r : RBlock) (bc : Bytecode) (hp : parse cc src = .ok ast)
     (hs : src6Top ast = true) (hc : compileProgram ast = .ok (r, bc)) (hdiv : ∀ F, specText cc F src = .budget) (b : Nat) :
-    evalText cc b src = .budget ∨ (∃ n out, ∀ k, evalText cc (n + k) src = .error .index out) := by
+    evalText cc b src = .budget ∨ TextHitsLimit cc src := by
   have hres := resolve_of_compile hc
-  rcases program_div6_syntactic ast r bc hc (src6Top_sound ast hs) (fun F => specText_budget hp hres (hdiv F)) b with ⟨s', hb⟩ | ⟨n, s', hn⟩
+  rcases program_div6_syntactic ast r bc hc (src6Top_sound ast hs) (fun F => specText_budget hp hres (hdiv F)) b with ⟨s', hb⟩ | hlim
   · left
     simp only [evalText, hp, hc, VM.run, hb]
-  · right
-    refine ⟨n, s'.out, fun k => ?_⟩
-    simp only [evalText, hp, hc, VM.run, hn k]
-    rfl
+  · exact .inr (TextHitsLimit.of hp hc hlim)
 
 /-- (T3, purely syntactic hypotheses) the hypotheses of `C01_heap_and_calls_eval_text_syntactic` -/
 theorem eval_text6_div_syntactic (cc : CharClass) (src : Text) (ast : Block) (r : RBlock) (bc : Bytecode) (hp : parse cc src = .ok ast)
     (hs : src6TopNF ast = true) (hc : compileProgram ast = .ok (r, bc)) (hdiv : ∀ F, specText cc F src = .budget) (b : Nat) :
-    evalText cc b src = .budget ∨ (∃ n out, ∀ k, evalText cc (n + k) src = .error .index out) :=
+    evalText cc b src = .budget ∨ TextHitsLimit cc src :=
   eval_text6_div cc src ast r bc hp (src6TopNF_up ast hs (ParsedFloats.parse_allLitF cc src ast hp)) hc hdiv b
 
 /-! ## the converse of the forward theorem -/
@@ -108,7 +105,7 @@ theorem evalText_mono (cc : CharClass) (src : Text) (b k : Nat) (h : evalText cc
     (divergence preservation); otherwise the forward theorem and the fact that more budget does not change a finished run. -/
 theorem eval_text6_converse (cc : CharClass) (src : Text) (ast : Block) (r : RBlock) (bc : Bytecode) (hp : parse cc src = .ok ast)
     (hs : src6Top ast = true) (hc : compileProgram ast = .ok (r, bc)) (b : Nat)
-    (hne : evalText cc b src ≠ .budget) (hnl : ¬ ∃ n out, ∀ k, evalText cc (n + k) src = .error .index out) :
+    (hne : evalText cc b src ≠ .budget) (hnl : ¬ TextHitsLimit cc src) :
     ∃ F, specText cc F src = evalText cc b src ∨ specText cc F src = .unspec := by
   by_cases hall : ∀ F, specText cc F src = .budget
   · rcases eval_text6_div cc src ast r bc hp hs hc hall b with h | h
@@ -145,8 +142,9 @@ theorem eval_text6_converse_value (cc : CharClass) (src : Text) (ast : Block) (r
     (hv : evalText cc b src = .value t out) :
     ∃ F, specText cc F src = .value t out ∨ specText cc F src = .unspec := by
   have hne : evalText cc b src ≠ .budget := by rw [hv]; intro h; cases h
-  have hnl : ¬ ∃ n out, ∀ k, evalText cc (n + k) src = .error .index out := by
-    rintro ⟨n, out', hn⟩
+  have hnl : ¬ TextHitsLimit cc src := by
+    intro hl
+    obtain ⟨n, out', hn⟩ := hl.observable
     have h1 := evalText_mono cc src b n hne
     have h2 := hn b
     rw [Nat.add_comm] at h2
@@ -160,8 +158,9 @@ theorem eval_text6_converse_error (cc : CharClass) (src : Text) (ast : Block) (r
     (hv : evalText cc b src = .error e out) (he : e ≠ .index) :
     ∃ F, specText cc F src = .error e out ∨ specText cc F src = .unspec := by
   have hne : evalText cc b src ≠ .budget := by rw [hv]; intro h; cases h
-  have hnl : ¬ ∃ n out, ∀ k, evalText cc (n + k) src = .error .index out := by
-    rintro ⟨n, out', hn⟩
+  have hnl : ¬ TextHitsLimit cc src := by
+    intro hl
+    obtain ⟨n, out', hn⟩ := hl.observable
     have h1 := evalText_mono cc src b n hne
     have h2 := hn b
     rw [Nat.add_comm] at h2
